@@ -1466,7 +1466,11 @@ class ktensor:
         y = self.factor_matrices[n] @ M @ self.factor_matrices[n].T
 
         if r < y.shape[0] - 1:
-            w, v = scipy.sparse.linalg.eigsh(y, r)
+            # ARPACK's convergence test has an absolute floor (eps**(2/3)): a Gram matrix
+            # far below one would be solved to a few digits only, so solve a scaled copy
+            # (the eigenvectors are the same)
+            scale = np.max(np.abs(y))
+            w, v = scipy.sparse.linalg.eigsh(y / scale if scale > 0 else y, r)
             v = v[:, (-np.abs(w)).argsort()]
             v = v[:, :r]
         else:
